@@ -208,6 +208,8 @@ def _run_case(case):
         err = io.StringIO()
         with contextlib.redirect_stderr(err):
             so, lg, gl, ex = _exec_entry(casedir, entry)
+            if case.get("activities") and not ex:
+                res["activities"] = _run_activities(sys.modules.get(entry), case["activities"])
             rt = RuntimeEngine._rt_engine
             ended_by_program = rt is None
             if rt is not None:
@@ -254,6 +256,99 @@ def _run_case(case):
             shutil.rmtree(casedir, ignore_errors=True)
         for stray in Path.cwd().glob("-dynapyt.json"):
             stray.unlink()
+
+
+def _run_activities(mod, spec):
+    """spec = {"kind": "threads"|"generators", "acts": [[fn name, arg], ...], "schedule": [activity index, ...]}
+    Threads switch ONLY inside hooks (cooperative scheduler driven from the recorder callback)."""
+    import threading
+    import vrec
+    import vsupport
+
+    acts = spec["acts"]
+    n = len(acts)
+    schedule = list(spec["schedule"])
+    state = {"pos": 0}
+    owner = []  # activity index per delivery, parallel to vrec.LOG from `base` on
+    base = len(vrec.LOG)
+    results = [None] * n
+
+    def pick(alive):
+        for _ in range(len(schedule) + 1):
+            if not schedule:
+                break
+            c = schedule[state["pos"] % len(schedule)]
+            state["pos"] += 1
+            if alive[c]:
+                return c
+        for i in range(n):
+            if alive[i]:
+                return i
+        return None
+
+    if spec["kind"] == "generators":
+        gens = [getattr(mod, f)(a) for f, a in acts]
+        alive = [True] * n
+        cur = [None]
+
+        def cb(tag, hook, args):
+            owner.append(cur[0])
+
+        vrec.HOOK_CALLBACK[0] = cb
+        outs = [[] for _ in range(n)]
+        while any(alive):
+            i = pick(alive)
+            cur[0] = i
+            try:
+                outs[i].append(vsupport.cr(next(gens[i])))
+            except StopIteration:
+                alive[i] = False
+        vrec.HOOK_CALLBACK[0] = None
+        results = outs
+    else:
+        sems = [threading.Semaphore(0) for _ in range(n)]
+        alive = [True] * n
+        tl = threading.local()
+        done = threading.Semaphore(0)
+        errors = []
+
+        def cb(tag, hook, args):
+            me = getattr(tl, "idx", None)
+            owner.append(me)
+            if me is None:
+                return
+            nxt = pick(alive)
+            if nxt is not None and nxt != me:
+                sems[nxt].release()
+                sems[me].acquire()
+
+        def body(i):
+            tl.idx = i
+            sems[i].acquire()
+            try:
+                results[i] = vsupport.cr(getattr(mod, acts[i][0])(acts[i][1]))
+            except BaseException as e:
+                errors.append(repr(e))
+                results[i] = "EXC:" + type(e).__name__
+            alive[i] = False
+            nxt = pick(alive)
+            if nxt is not None:
+                sems[nxt].release()
+            else:
+                done.release()
+
+        vrec.HOOK_CALLBACK[0] = cb
+        ths = [threading.Thread(target=body, args=(i,), daemon=True) for i in range(n)]
+        for t in ths:
+            t.start()
+        first = pick(alive)
+        sems[first].release()
+        ok = done.acquire(timeout=60)
+        vrec.HOOK_CALLBACK[0] = None
+        if not ok:
+            return {"error": "scheduler deadlock", "errors": errors}
+    dels = vrec.LOG[base:]
+    return {"results": results, "owner": owner[:len(dels)], "base": base}
 
 
 def _mkval(v):
